@@ -640,6 +640,7 @@ fn main() {
     ];
     let all_targets: Vec<(&'static str, Mode)> = KINDS.iter().flat_map(|k| [(*k, Mode::Embedded), (*k, Mode::Sidecar)]).collect();
     let wanted = if run.replay.is_some() || !run.quick() { all_targets } else { quick_targets };
+    let t_build = std::time::Instant::now();
     let mut targets: BTreeMap<String, Target> = BTreeMap::new();
     for (k, m) in wanted {
         match vh::catch(|| build_target(k, m)) {
@@ -663,13 +664,14 @@ fn main() {
             }
         }
     }
+    run.extra("build_stores_s", json!(t_build.elapsed().as_secs_f64()));
     let mut cases = vec![];
     for t in targets.values() {
         let c = cases_for(t, &run, !run.quick(), 4000);
         run.count_n(&format!("cases:{}", t.name), c.len() as u64);
         cases.extend(c);
     }
-    let threads = run.scale(8, 16);
+    let threads = std::env::var("VERIF_THREADS").ok().and_then(|v| v.parse().ok()).unwrap_or(run.scale(8, 16));
     let trace = std::env::var("VERIF_TRACE").is_ok();
     run.drive_enum_par("store_mutation", cases, threads, |c| {
         let r = judge(&run, &targets, selftest, c);
